@@ -438,7 +438,7 @@ func init() {
 			}
 			// ---- 3. default transport ----
 			ns := []int64{0, 1, -1, 2, 7, 255, 256, 4096, math.MaxInt32, math.MaxInt32 + 1, math.MinInt32, 1 << 32, 1 << 62, math.MaxInt64, math.MaxInt64 - 1, math.MinInt64, math.MinInt64 + 1, -2}
-			g.Add("reg-concurrent", Ls(I(3), I(g.Scale(400, 20000))))
+			g.Add("reg-concurrent", Ls(I(3), I(g.Scale(30000, 300000))))
 			for _, cls := range []int{0, 1, 2, 5, 6, 7} {
 				for _, v := range ns {
 					g.Add("default", Ls(I(1), I(cls), I64(v)))
